@@ -200,6 +200,8 @@ func newHistory(c *mon.Case, spec *streamSpec) *history {
 		c.Fail("fault", "reference refused the parameters: %v", err)
 		return nil
 	}
+	c.Detail("object", spec.String())
+	c.Detail("history", lazyLog{&h.log})
 	return h
 }
 
@@ -380,11 +382,13 @@ func clip(b []byte) []byte {
 	return b
 }
 
-func (h *history) fail() {
-	h.dead = true
-	h.c.Detail("history", strings.Join(h.log, " ; "))
-	h.c.Detail("object", h.spec.String())
-}
+func (h *history) fail() { h.dead = true }
+
+// lazyLog is attached to a case as a detail before anything can fail; it is rendered
+// only when a violation record is written, with the operations issued until then.
+type lazyLog struct{ log *[]string }
+
+func (l lazyLog) MarshalText() ([]byte, error) { return []byte(strings.Join(*l.log, " ; ")), nil }
 
 // ---------------------------------------------------------------------------------------------
 // random walks
@@ -462,7 +466,7 @@ func eeaWalk(x *mon.Ctx) {
 	if err := refzuc.SelfTest(); err != nil {
 		x.HarnessError("%v", err)
 	}
-	walks := x.Scale(6000, 150000)
+	walks := x.Scale(12000, 150000)
 	for i := 0; i < walks; i++ {
 		c := x.Begin("walk %d: random history on one cipher object (constructor, key, operations drawn from the case PRNG)", i)
 		if c == nil {
@@ -546,6 +550,17 @@ func eeaGrid(x *mon.Ctx) {
 		x.HarnessError("%v", err)
 	}
 	maxA := x.Scale(300, 1100)
+	// the 25-element IV form of the ZUC-256 specification (8 six-bit values in separate bytes) is not part of
+	// the constructors' domain: recorded for the evidence, not judged
+	if p := mon.Try(func() {
+		if _, err := zuc.NewCipher(make([]byte, 32), make([]byte, 25)); err != nil {
+			x.Note("zuc.NewCipher(32-byte key, 25-byte IV) is refused (%v): only the packed 23-byte IV form is exercised", err)
+		} else {
+			x.Note("zuc.NewCipher(32-byte key, 25-byte IV) is accepted but not exercised by this workload")
+		}
+	}); p != nil {
+		x.Note("zuc.NewCipher(32-byte key, 25-byte IV) panics: %v", p.Value)
+	}
 	lens := []int{1, 3, 4, 5, 127, 128, 129, 0, 2, 131, 260, 7}
 	for si, spec := range gridSpecs() {
 		for a := 0; a <= maxA; a++ {
